@@ -115,6 +115,9 @@ def name_pools():
         "limit": {"i0": "g_limit_fanin_0", "i1": "g_limit_fanout_0", "h": "g_limit_fanin_1"},
         "miter": {"i0": "sat", "i1": "dif_g", "h": "c0_g", "i2": "c1_g"},
         "unroll": {"i0": "unrolled_0_a", "i1": "aux_in_g", "h": "c0_a"},
+        "unroll2": {"i0": "a_cg_unroll_0", "i1": "unrolled_1_g", "g": "a_cg_unroll_1", "h": "a"},
+        "regs": {"i0": "ff_g", "i1": "g_cg_insert_reg_q_1", "h": "clk", "g": "g"},
+        "acyc": {"a": "aux_in_q", "s": "c0_q", "r": "c1_aux_in_q", "d": "aux_in_p", "b": "c0_aux_in_p"},
         "escaped": {"i0": "\\a[0]", "i1": "\\b+c", "g": "\\out[1]"},
         "verilog": {"i0": "not_a", "i1": "and_a_b", "i2": "a", "h": "g_0"},
     }
